@@ -37,9 +37,12 @@ def outcomes(logic, func, frame=None, boolean=True, depth=2):
         loops = []      # (loop node, var canon strings, iter canon, start index per alt)
         dead = False
         last_ret = None
+        cenv = {}
         for e in p.events:
+            if e.kind == 'stmt' and e.frame is frame:
+                _track_consts(e.node, cenv)
             if e.kind == 'test':
-                parts = logic.dnf(e.node, e.frame, e.pol, depth=depth)
+                parts = logic.dnf(_subst(e.node, cenv), e.frame, e.pol, depth=depth)
                 alts = [a + q for a in alts for q in parts]
                 if len(alts) > MAX_ALTS:
                     alts = alts[:MAX_ALTS]
@@ -67,7 +70,7 @@ def outcomes(logic, func, frame=None, boolean=True, depth=2):
             for a in alts:
                 res.append(Outcome(a, 'none' if not boolean else 'F', p, last_ret))
         else:
-            v = last_ret.value
+            v = _subst(last_ret.value, cenv)
             if isinstance(v, ast.Constant) and isinstance(v.value, bool):
                 for a in alts:
                     res.append(Outcome(a, 'T' if v.value else 'F', p, last_ret))
@@ -80,6 +83,70 @@ def outcomes(logic, func, frame=None, boolean=True, depth=2):
                 for a in alts:
                     res.append(Outcome(a, ('val', canon.c(v, frame)), p, last_ret))
     return [o for o in res if not contradictory(o.lits)]
+
+
+def _track_consts(node, cenv):
+    """path-sensitive constant propagation for boolean flag locals"""
+    if isinstance(node, ast.Assign):
+        for t in node.targets:
+            for x in ast.walk(t):
+                if isinstance(x, ast.Name):
+                    cenv.pop(x.id, None)
+        if len(node.targets) == 1 and isinstance(node.targets[0], ast.Name) and isinstance(
+                node.value, ast.Constant) and isinstance(node.value.value, bool):
+            cenv[node.targets[0].id] = node.value.value
+    elif isinstance(node, (ast.AugAssign, ast.AnnAssign)):
+        if isinstance(node.target, ast.Name):
+            cenv.pop(node.target.id, None)
+
+
+class _Sub(ast.NodeTransformer):
+    def __init__(self, cenv):
+        self.cenv = cenv
+
+    def visit_Name(self, n):
+        if isinstance(n.ctx, ast.Load) and n.id in self.cenv:
+            return ast.copy_location(ast.Constant(value=self.cenv[n.id]), n)
+        return n
+
+    def visit_Lambda(self, n):
+        return n
+
+
+def _subst(expr, cenv):
+    if not cenv or expr is None:
+        return expr
+    if not any(isinstance(x, ast.Name) and x.id in cenv for x in ast.walk(expr)):
+        return expr
+    import copy
+    return _fold(_Sub(cenv).visit(copy.deepcopy(expr)))
+
+
+def _fold(e):
+    """fold and/or/not over boolean constants"""
+    if isinstance(e, ast.UnaryOp) and isinstance(e.op, ast.Not):
+        v = _fold(e.operand)
+        if isinstance(v, ast.Constant):
+            return ast.copy_location(ast.Constant(value=not v.value), e)
+        e.operand = v
+        return e
+    if isinstance(e, ast.BoolOp):
+        vals = [_fold(v) for v in e.values]
+        is_and = isinstance(e.op, ast.And)
+        out = []
+        for v in vals:
+            if isinstance(v, ast.Constant) and isinstance(v.value, bool):
+                if v.value != is_and:        # False in and / True in or: decides
+                    return ast.copy_location(ast.Constant(value=v.value), e)
+                continue                      # neutral element
+            out.append(v)
+        if not out:
+            return ast.copy_location(ast.Constant(value=is_and), e)
+        if len(out) == 1:
+            return out[0]
+        e.values = out
+        return e
+    return e
 
 
 def _pad(starts, alts):
